@@ -24,8 +24,12 @@ from contracts.C13_alloc_proofs import AVC, _agg, ov_t
 
 BACKEND = AP.BACKEND
 FEAS_MS = 2000     # path-feasibility queries only: `unknown` keeps the path (sound); obligations are decided by Ctx.check with its own 20 s limit
-I = z3.IntSort()
-CAT = z3.Function("str.cat", I, I, I); SUF = z3.Function("str.cat_underscore", I, I)
+I = CAT = SUF = None
+def _init():
+    """z3 declarations are made when a case runs, never at import (the runner imports every module of the property before it forks its workers)"""
+    global I, CAT, SUF
+    AP._init_z3()
+    I = z3.IntSort(); CAT = z3.Function("str.cat", I, I, I); SUF = z3.Function("str.cat_underscore", I, I)
 def _quiet(o):
     o.logger = logging.getLogger("x"); o.logger.disabled = True
     for n in ("SoCCSRHandler", "SoCIRQHandler", "SoCRegion", "SoCBusHandler", "SoC"): logging.getLogger(n).disabled = True
@@ -78,7 +82,19 @@ def inside_set(ro, rs, co, cs):              # the same, set-theoretically: ever
     x = z3.Int("x")
     return z3.ForAll([x], z3.Implies(z3.And(ro <= x, x < ro + rs), z3.And(co <= x, x < co + cs)))
 
-def _wrap(tag, runner, functions, state, need=(), min_paths=1, extra_cover=lambda stats: True):
+def _explore(run, **kw):
+    """explore() + the rule that an exception the function under contract is not declared to raise is a failed obligation, not a harness fault
+    (a crash such as a TypeError / IndexError / KeyError of the real code must be visible as a violation)"""
+    def guarded(ctx):
+        try: return run(ctx)
+        except (PathEnd, Unsupported, AssertionError): raise
+        except (S.SoCError, GP.ConstraintError) as e:
+            elab.restore_stderr(); ctx.check(f"no-undeclared-exception:{type(e).__name__}-escaped-the-harness", z3.BoolVal(False))
+        except Exception as e:
+            elab.restore_stderr(); ctx.check(f"no-undeclared-exception:{type(e).__name__}", z3.BoolVal(False))
+    return explore(guarded, **kw)
+
+def _wrap(tag, runner, functions, state, need=(), min_paths=1, extra_cover=lambda stats: True, replay=None):
     """runner(wrong) -> (paths, obligations, stats).  The case runs ONCE with its deliberately wrong postcondition(s) switched on: Ctx.check never
     changes the path condition, so the `wrong.*` clauses cannot influence the others; they are taken out of the reported obligations and must be
     REFUTED (vacuity guard: the solver can tell a false clause from a true one in this very setting)"""
@@ -86,6 +102,14 @@ def _wrap(tag, runner, functions, state, need=(), min_paths=1, extra_cover=lambd
     paths, obl_all, stats = runner(True)
     obl = [o for o in obl_all if not o[0].startswith("wrong.")]
     out = _agg(tag, obl)
+    if replay is not None:
+        for r_ in out:
+            if r_["status"] == NOINPUT and "model" in r_ and ".finding." not in r_["name"]:
+                try:
+                    rp = replay(r_["model"]); r_["replay_info"] = rp
+                    if rp and rp.get("reproduced"): r_["status"] = VIOLATED
+                except Exception as e: r_["replay_error"] = f"{type(e).__name__}: {e}"
+                finally: elab.restore_stderr()
     refuted = any(s == "FAILED" for n, s, _ in obl_all if n.startswith("wrong."))
     have = {n for n, _, _ in obl}
     ok = refuted and set(need) <= have and paths >= min_paths and extra_cover(stats)
@@ -106,6 +130,7 @@ def _mk_region(prefix, cls=S.SoCRegion, cached=None, origin=True):
     return r
 
 def _run_is_in(wrong):
+    _init()
     stats = dict(true=0, false=0)
     def run(ctx):
         r = _mk_region("r"); c = _mk_region("c")
@@ -119,12 +144,23 @@ def _run_is_in(wrong):
         ctx.check("post.boundary:one-byte-beyond-the-container-end-is-outside", z3.Implies(ro + rs == co + cs + 1, z3.BoolVal(not got)))
         ctx.check("post.boundary:starting-one-byte-before-the-container-is-outside", z3.Implies(ro == co - 1, z3.BoolVal(not got)))
         if wrong: ctx.check("wrong.result==(strictly-inside)", z3.BoolVal(bool(got)) == z3.And(ro > co, ro + rs < co + cs))
-    paths, obl = explore(run)
+    paths, obl = _explore(run)
     return paths, obl, stats
+
+def _mint(model, key, default=0):
+    v = model.get(key); return int(v) if v is not None and v.lstrip("-").isdigit() else default
+def _replay_is_in(model):
+    """the counter-model's two regions through the unmodified function under plain CPython, against the set-theoretic answer"""
+    ro, rs, co, cs = (_mint(model, k, d) for k, d in (("r.origin", 0), ("r.size", 1), ("c.origin", 0), ("c.size", 0)))
+    r = S.SoCRegion.__new__(S.SoCRegion); r.origin, r.size = ro, rs
+    c = S.SoCRegion.__new__(S.SoCRegion); c.origin, c.size = co, cs
+    got = S.SoCBusHandler.check_region_is_in(None, r, c)
+    want = co <= ro and (ro + rs - 1) <= (co + cs - 1)            # first and last byte of the region are bytes of the container
+    return dict(reproduced=bool(got) != want, call=f"check_region_is_in(region(origin={ro}, size={rs}), container(origin={co}, size={cs}))", returned=got, expected=want)
 
 def c_is_in():
     return _wrap("check_region_is_in", _run_is_in, ["litex.soc.integration.soc.SoCBusHandler.check_region_is_in"],
-                 "symbolic origin/size of region (size >= 1) and container (any ints)", min_paths=4, extra_cover=lambda s: s["true"] >= 1 and s["false"] >= 3)
+                 "symbolic origin/size of region (size >= 1) and container (any ints)", replay=_replay_is_in, min_paths=4, extra_cover=lambda s: s["true"] >= 1 and s["false"] >= 3)
 
 def _is_io_loops(ios, r):
     a = z3.Int("a")
@@ -134,6 +170,7 @@ def _is_io_loops(ios, r):
     return loops, some
 
 def _run_is_io(wrong):
+    _init()
     stats = dict(returned=0)
     def run(ctx):
         ctx.solver.set("timeout", FEAS_MS)
@@ -154,7 +191,7 @@ def _run_is_io(wrong):
         ctx.check("post.no-IO-region=>False", z3.Implies(ios.len == 0, z3.Not(tobool(got))))
         ctx.check("post.io_regions-unchanged", z3.BoolVal(bus.io_regions is ioregs and not ioregs.extra))
         if wrong: ctx.check("wrong.result==(inside-the-LAST-IO-region)", tobool(got) == z3.And(ios.len > 0, inside(ro, rs, ios.fn["origin"](ios.len - 1), ios.fn["size"](ios.len - 1))))
-    paths, obl = explore(run)
+    paths, obl = _explore(run)
     return paths, obl, stats
 
 def c_is_io():
@@ -212,6 +249,7 @@ def _install_overlap(bus, d_of):
     bus.check_regions_overlap = call
 
 def _run_add_fixed(wrong, address_width=32):
+    _init()
     stats = dict(accepted=0, raised=0, accepted_cached=0, accepted_uncached=0)
     def run(ctx):
         bus, seq, regs, ios, ioregs = _bus_state(ctx, address_width, inv_regs=True)
@@ -245,7 +283,7 @@ def _run_add_fixed(wrong, address_width=32):
         # candidate finding: nothing confines a FIXED-origin region to the address space of the bus
         ctx.check("finding.fixed-origin-region-lies-inside-the-address-space", toint(r.origin) + toint(r.size) <= 2**address_width)
         if wrong: ctx.check("wrong.accepted=>cached", ca)
-    paths, obl = explore(run, max_paths=4000)
+    paths, obl = _explore(run, max_paths=4000)
     return paths, obl, stats
 
 def c_add_fixed():
@@ -257,6 +295,7 @@ def c_add_fixed():
                           "replay_add_region_outside_address_space")
 
 def _run_add_io(wrong):
+    _init()
     stats = dict(accepted=0, raised=0)
     def run(ctx):
         bus, seq, regs, ios, ioregs = _bus_state(ctx, inv_io=True)
@@ -281,7 +320,7 @@ def _run_add_io(wrong):
         ctx.check("post.invariant(IO-regions-pairwise-disjoint-windows)", _disjoint(ioregs))
         ctx.check("post.window-disjoint-from-every-existing-non-linker-IO-region", z3.Not(ovl))
         if wrong: ctx.check("wrong.accepted=>no-IO-region-before", ios.len == 0)
-    paths, obl = explore(run, max_paths=4000)
+    paths, obl = _explore(run, max_paths=4000)
     return paths, obl, stats
 
 def c_add_io():
@@ -290,6 +329,7 @@ def c_add_io():
                  extra_cover=lambda s: s["accepted"] >= 1 and s["raised"] >= 2)
 
 def _run_add_other(wrong):
+    _init()
     stats = dict(raised=0, accepted=0)
     def run(ctx):
         bus, seq, regs, ios, ioregs = _bus_state(ctx); bus.io_regions_check = True
@@ -301,7 +341,7 @@ def _run_add_other(wrong):
         ctx.check("post.object-that-is-no-SoCRegion-is-never-accepted", z3.BoolVal(stats["accepted"] == 0))
         ctx.check("post.state-unchanged", z3.BoolVal(bus.regions is regs and not regs.extra and bus.io_regions is ioregs and not ioregs.extra))
         if wrong: ctx.check("wrong.name-unused", z3.Not(z3.Or(regs.has(name.t), ioregs.has(name.t))))
-    paths, obl = explore(run)
+    paths, obl = _explore(run)
     return paths, obl, stats
 def c_add_other():
     return _wrap("add_region[not-a-region]", _run_add_other, ["litex.soc.integration.soc.SoCBusHandler.add_region (unsupported-object branch)"], "arbitrary handler state; four objects that are not SoCRegion instances",
@@ -434,6 +474,7 @@ def _check_add_post(ctx, hnd, old, name, n, reuse, stats, prefix="post."):
     else: ctx.check(prefix + "new-name=>granted-the-lowest-free-number", z3.Implies(z3.Not(was), z3.ForAll([m], z3.Implies(z3.And(0 <= m, m < g), z3.Select(old.used, m)))))
 
 def _run_loc_add(wrong, cls=S.SoCLocHandler, fixed=True):
+    _init()
     stats = dict(accepted=0, raised=0, reused=0)
     def run(ctx):
         hnd = _mk_handler(cls, ctx); old = hnd.locs.snapshot(); N = hnd.n_locs.t
@@ -458,8 +499,19 @@ def _run_loc_add(wrong, cls=S.SoCLocHandler, fixed=True):
         if cls is S.SoCIRQHandler: ctx.check("post.accepted=>IRQs-enabled", tobool(hnd.enabled))
         _check_add_post(ctx, hnd, old, name, n, reuse, stats)
         if wrong: ctx.check("wrong.granted-number-is-0", z3.Select(hnd.locs.val, name.t) == 0)
-    paths, obl = explore(run, max_paths=4000)
+    paths, obl = _explore(run, max_paths=4000)
     return paths, obl, stats
+
+def _replay_loc_add(clsname):
+    def replay(model):
+        """the counter-model's n_locs / n on an EMPTY handler of the unmodified class (catches range defects; a state-dependent defect is not replayed)"""
+        if "n" not in model: return dict(reproduced=False)
+        n, N = _mint(model, "n"), _mint(model, "n_locs")
+        hd = S.SoCLocHandler("LOC", N); _quiet(hd)
+        try: hd.add("client", n)
+        except S.SoCError: elab.restore_stderr(); return dict(reproduced=False, n=n, n_locs=N)
+        return dict(reproduced=not (0 <= hd.locs["client"] < N), call=f"SoCLocHandler('LOC', {N}).add('client', {n})", granted=hd.locs["client"])
+    return replay
 
 def c_loc_add(clsname, fixed):
     cls = getattr(S, clsname)
@@ -467,7 +519,7 @@ def c_loc_add(clsname, fixed):
     need = () if fixed else ("loop0.init", "loop0.step")
     return _wrap(tag, lambda w: _run_loc_add(w, cls, fixed), [f"litex.soc.integration.soc.{clsname}.add", "litex.soc.integration.soc.SoCLocHandler.add"] + ([] if fixed else ["litex.soc.integration.soc.SoCLocHandler.alloc (loop over range(n_locs) cut)"]),
                  "arbitrary name->number map satisfying the class invariant (z3 arrays + ghost inverse), SYMBOLIC n_locs, symbolic name / number / use_loc_if_exists" + (" / enabled" if cls is S.SoCIRQHandler else ""),
-                 need=need, extra_cover=lambda s: s["accepted"] >= 2 and s["raised"] >= 2)
+                 need=need, extra_cover=lambda s: s["accepted"] >= 2 and s["raised"] >= 2, replay=_replay_loc_add(clsname) if fixed else None)
 
 # ---- constructors --------------------------------------------------------------------------------------------------------------------
 class _Opaque:
@@ -512,6 +564,7 @@ def _member(t, vals): return z3.Or(*[t == v for v in vals])
 
 def _run_csr_init(wrong, ordering="big"):
     """the real constructor, unmodified, on ALL int configurations, with no reserved entries"""
+    _init()
     AP._init_z3()
     stats = dict(returned=0, raised=0)
     def run(ctx):
@@ -539,17 +592,27 @@ def _run_csr_init(wrong, ordering="big"):
         n_ = z3.Int("n_")
         ctx.check("post.every-location-0<=n<n_locs-is-a-page-inside-the-CSR-space:0<=paging*n,paging*(n+1)<=2**(address_width+2)", z3.ForAll([n_], z3.Implies(z3.And(0 <= n_, n_ < N), z3.And(pg.t * n_ >= 0, pg.t * (n_ + 1) <= 4 * AP.POW2(aw.t)))))
         if wrong: ctx.check("wrong.n_locs==32", N == 32)
-    paths, obl = explore(run, max_paths=6000)
+    paths, obl = _explore(run, max_paths=6000)
     return paths, obl, stats
+
+def _replay_csr_init(ordering):
+    def replay(model):
+        dw, aw, al, pg = (_mint(model, k) for k in ("data_width", "address_width", "alignment", "paging"))
+        try: h = S.SoCCSRHandler(data_width=dw, address_width=aw, alignment=al, paging=pg, ordering=ordering)
+        except S.SoCError: elab.restore_stderr(); return dict(reproduced=False, note="rejected")
+        legal = dw in CSR_DW and aw in CSR_AW and al in CSR_AL and pg in CSR_PG and ordering in CSR_ORD
+        return dict(reproduced=(not legal) or h.n_locs * pg != 2**(aw + 2), call=f"SoCCSRHandler(data_width={dw}, address_width={aw}, alignment={al}, paging={pg}, ordering={ordering!r})", n_locs=h.n_locs, csr_space_bytes=2**(aw + 2))
+    return replay
 
 def c_csr_init(ordering):
     legal = ordering in CSR_ORD
     return _wrap(f"SoCCSRHandler.__init__[ordering={ordering!r}]", lambda w: _run_csr_init(w, ordering), ["litex.soc.integration.soc.SoCCSRHandler.__init__", "litex.soc.integration.soc.SoCLocHandler.__init__"],
-                 "ALL int data_width / address_width >= 0 / alignment / paging != 0 (symbolic); reserved_csrs = {}",
+                 "ALL int data_width / address_width >= 0 / alignment / paging != 0 (symbolic); reserved_csrs = {}", replay=_replay_csr_init(ordering),
                  extra_cover=(lambda s: s["returned"] == 50 and s["raised"] >= 4) if legal else (lambda s: s["returned"] == 0 and s["raised"] >= 1))
 
 def _run_csr_reserved(wrong, address_width=14, paging=0x800):
     """the constructor's loop over an UNBOUNDED reserved_csrs dict (loop cut; the loop modifies self.locs), at one legal configuration"""
+    _init()
     stats = dict(returned=0, raised=0)
     def run(ctx):
         ctx.solver.set("timeout", FEAS_MS)
@@ -572,7 +635,7 @@ def _run_csr_reserved(wrong, address_width=14, paging=0x800):
         ctx.check("post.every-reserved-CSR-holds-its-requested-page", z3.ForAll([a], z3.Implies(z3.And(0 <= a, a < rsv.len), z3.And(z3.Select(l.pres, rsv.rname(a)), z3.Or(rsv.none(a), z3.Select(l.val, rsv.rname(a)) == rsv.rnum(a))))))
         ctx.check("post.reserved-names-are-pairwise-different,numbers-too", z3.ForAll([a], z3.Implies(z3.And(0 <= a, a < rsv.len), z3.And(z3.Select(l.val, rsv.rname(a)) >= 0, z3.Select(l.val, rsv.rname(a)) < N))))
         if wrong: ctx.check("wrong.at-most-one-reserved-entry", rsv.len <= 1)
-    paths, obl = explore(run, max_paths=6000)
+    paths, obl = _explore(run, max_paths=6000)
     return paths, obl, stats
 
 def c_csr_reserved(address_width, paging):
@@ -582,6 +645,7 @@ def c_csr_reserved(address_width, paging):
                  need=("loop0.init", "loop0.step"), extra_cover=lambda s: s["returned"] >= 1 and s["raised"] >= 2)
 
 def _run_irq_init(wrong):
+    _init()
     stats = dict(returned=0, raised=0)
     def run(ctx):
         ctx.solver.set("timeout", FEAS_MS)
@@ -604,7 +668,7 @@ def _run_irq_init(wrong):
         ctx.check("post.no-IRQ-granted-yet,handler-disabled", z3.And(h.locs.pres == EMPTY, h.locs.used == EMPTY, loc_inv(h.locs, n_irqs.t), z3.BoolVal(h.enabled is False and h.name == "IRQ")))
         ctx.check("post.(observation)returns-only-without-reserved-entries", rsv.len == 0)     # add() raises while the handler is not enabled, and __init__ leaves it disabled
         if wrong: ctx.check("wrong.n_irqs==32", n_irqs.t == 32)
-    paths, obl = explore(run)
+    paths, obl = _explore(run)
     return paths, obl, stats
 
 def c_irq_init():
@@ -613,6 +677,7 @@ def c_irq_init():
 
 # ---- SoCCSRHandler.address_map / add_region -------------------------------------------------------------------------------------------
 def _run_address_map(wrong, with_memory=False):
+    _init()
     stats = dict(accepted=0, raised=0)
     def run(ctx):
         hnd = _mk_handler(S.SoCCSRHandler, ctx); old = hnd.locs.snapshot(); N = hnd.n_locs.t
@@ -643,7 +708,7 @@ def _run_address_map(wrong, with_memory=False):
         # each CSR page is granted to at most one client: a key already handed to a client must belong to THIS client (candidate finding: the mangling is not injective)
         ctx.check("finding.page-was-not-already-handed-to-a-different-client", z3.Implies(z3.Select(handed, key), z3.And(z3.Select(cl_name, key) == name.t, z3.Select(cl_mem, key) == memid)))
         if wrong: ctx.check("wrong.name-was-new", z3.Not(z3.Select(old.pres, key)))
-    paths, obl = explore(run, max_paths=4000)
+    paths, obl = _explore(run, max_paths=4000)
     return paths, obl, stats
 
 def _replay_tool(fname, func="scenario", *args):
@@ -674,6 +739,7 @@ def c_address_map(with_memory):
                           "replay_csr_name_mangling_collision")
 
 def _run_csr_add_region(wrong):
+    _init()
     stats = dict(accepted=0, raised=0)
     def run(ctx):
         ctx.solver.set("timeout", FEAS_MS)
@@ -689,7 +755,7 @@ def _run_csr_add_region(wrong):
         ctx.check("post.region-recorded-under-the-name", z3.BoolVal(hnd.regions is regs and len(regs.extra) == 1 and regs.extra[0][0] is name and regs.extra[0][1] is region))
         ctx.check("finding.name-was-not-already-used-by-another-CSR-region", z3.Not(dup))
         if wrong: ctx.check("wrong.no-region-before", seq.len == 0)
-    paths, obl = explore(run)
+    paths, obl = _explore(run)
     return paths, obl, stats
 
 def c_csr_add_region():
@@ -776,6 +842,7 @@ class GVC(HVC):
 def _lexlt(a0, a1, b0, b1): return z3.Or(a0 < b0, z3.And(a0 == b0, a1 < b1))
 
 def _run_sig_constraints(wrong, shape="pins"):
+    _init()
     AP._init_z3()
     stats = dict(returned=0)
     tail = AP._tails()[shape]
@@ -847,8 +914,12 @@ def _run_sig_constraints(wrong, shape="pins"):
         uniq_desc = z3.ForAll([a, b_], z3.Implies(z3.And(0 <= a, a < b_, b_ < M.len0), z3.Not(z3.And(AP.RES_NAME(M.res(a)) == AP.RES_NAME(M.res(b_)), AP.RES_NUM(M.res(a)) == AP.RES_NUM(M.res(b_))))))
         ident_eq = lambda x, y: z3.And(AP.RES_NAME(M.res(SRC(x))) == AP.RES_NAME(M.res(SRC(y))), AP.RES_NUM(M.res(SRC(x))) == AP.RES_NUM(M.res(SRC(y))), SUB(x) == SUB(y))
         ctx.check("post.description-has-unique-(name,number)=>constraint-identifiers-(name,number,sub-signal)-pairwise-different", z3.Implies(z3.And(uniq_desc, z3.BoolVal(len({x.name for x in subs}) == len(subs))), z3.ForAll([j, j2], z3.Implies(z3.And(0 <= j, j < j2, j2 < TL), z3.Not(ident_eq(j, j2))))))
-        if wrong: ctx.check("wrong.at-most-one-constraint", TL <= 1)
-    paths, obl = explore(run, max_paths=4000)
+        # vacuity guard: the path condition admits the scenario `one matched resource with all its sub-signals, one constraint per sub-signal`
+        if wrong:
+            wit = [M.len0 == 1, TL == nsub] + [present(z3.IntVal(0), s_) for s_ in range(nsub)]
+            for s_ in range(nsub): wit += [SRC(z3.IntVal(s_)) == 0, SUB(z3.IntVal(s_)) == s_, IDX(z3.IntVal(0), z3.IntVal(s_)) == s_]
+            ctx.check("wrong.not(one-matched-resource,one-constraint-per-sub-signal)", z3.Not(z3.And(*wit)))
+    paths, obl = _explore(run, max_paths=4000)
     return paths, obl, stats
 
 def c_sig_constraints(shape):
@@ -857,6 +928,7 @@ def c_sig_constraints(shape):
                  "unbounded symbolic matched list (one constraint shape), symbolic presence of each sub-signal in the stored Record", need=("loop0.init", "loop0.step"), extra_cover=lambda s: s["returned"] >= 1)
 
 def _run_io_signals(wrong, shape="pins"):
+    _init()
     AP._init_z3()
     stats = dict(returned=0)
     tail = AP._tails()[shape]
@@ -880,7 +952,7 @@ def _run_io_signals(wrong, shape="pins"):
         ctx.check("post.returns-the-set;manager-state-unchanged", z3.BoolVal(isinstance(r, SymSetP) and not r.extra and cm.matched is M and not M.extra))
         ctx.check("post.the-set-holds-exactly-the-signals-of-the-objects-of-MATCHED-resources", z3.ForAll([a, k], r.has(a, k) == z3.And(0 <= a, a < M.len0, 0 <= k, k < nflat)))
         if wrong: ctx.check("wrong.only-the-first-matched-object", z3.ForAll([a, k], z3.Implies(r.has(a, k), a == 0)))
-    paths, obl = explore(run)
+    paths, obl = _explore(run)
     return paths, obl, stats
 
 def c_io_signals(shape):
@@ -888,37 +960,45 @@ def c_io_signals(shape):
                  "unbounded symbolic matched list; stored objects are Signals (pins) or Records of two signals (record)", need=("loop0.init", "loop0.step"), extra_cover=lambda s: s["returned"] >= 1)
 
 def _run_add_extension(wrong, prepend=False):
+    """two explorations: (shape) from ANY lists - no assumption at all, so a wrong concatenation gets a concrete counter-model -, (inv) from a state
+    satisfying the manager invariant with an extension of new, pairwise different resources"""
+    _init()
     AP._init_z3()
     stats = dict(returned=0)
     tail = AP._tails()["pins"]
-    def run(ctx):
+    def mk(ctx, with_inv):
         ctx.solver.set("timeout", FEAS_MS)
         A = XList("available", tail); M = AP.PMatched("matched", tail); E = XList("io", tail)
         ctx.assume(SymBool(z3.And(A.len >= 0, M.len0 >= 0, E.len >= 0)))
         A0at, A0len, Eat, Elen = A.at, A.len, E.at, E.len
         a, b_ = z3.Ints("a b")
-        ctx.assume(SymBool(AP._cm_inv(A0at, A0len, M.res, M.len0)))
-        # environment: the extension lists every resource once and none of them is already known to the manager
-        ctx.assume(SymBool(z3.And(z3.ForAll([a, b_], z3.Implies(z3.And(0 <= a, a < b_, b_ < Elen), Eat(a) != Eat(b_))),
-                                  z3.ForAll([a, b_], z3.Implies(z3.And(0 <= a, a < Elen, 0 <= b_, b_ < A0len), Eat(a) != A0at(b_))),
-                                  z3.ForAll([a, b_], z3.Implies(z3.And(0 <= a, a < Elen, 0 <= b_, b_ < M.len0), Eat(a) != M.res(b_))))))
+        if with_inv:
+            ctx.assume(SymBool(AP._cm_inv(A0at, A0len, M.res, M.len0)))
+            # environment: the extension lists every resource once and none of them is already known to the manager
+            ctx.assume(SymBool(z3.And(z3.ForAll([a, b_], z3.Implies(z3.And(0 <= a, a < b_, b_ < Elen), Eat(a) != Eat(b_))),
+                                      z3.ForAll([a, b_], z3.Implies(z3.And(0 <= a, a < Elen, 0 <= b_, b_ < A0len), Eat(a) != A0at(b_))),
+                                      z3.ForAll([a, b_], z3.Implies(z3.And(0 <= a, a < Elen, 0 <= b_, b_ < M.len0), Eat(a) != M.res(b_))))))
         cm = GP.ConstraintManager.__new__(GP.ConstraintManager); cm.available = A; cm.matched = M; cm.platform_commands = []
-        vc = GVC({})
-        fn, src = rewrite(GP.ConstraintManager.add_extension, {}, vc)
+        fn, src = rewrite(GP.ConstraintManager.add_extension, {}, GVC({}))
         fn(cm, E, prepend)
-        stats["returned"] += 1
-        N = cm.available
+        return cm, M, E, A0at, A0len, Eat, Elen
+    def run_shape(ctx):
+        cm, M, E, A0at, A0len, Eat, Elen = mk(ctx, False); stats["returned"] += 1
+        N = cm.available; a = z3.Int("a")
         want = (lambda i: z3.If(i < Elen, Eat(i), A0at(i - Elen))) if prepend else (lambda i: z3.If(i < A0len, A0at(i), Eat(i - A0len)))
         ctx.check("post.available==" + ("io++available" if prepend else "available++io"), z3.And(N.len == A0len + Elen, z3.ForAll([a], z3.Implies(z3.And(0 <= a, a < N.len), N.at(a) == want(a)))))
         ctx.check("post.matched-and-io-unchanged", z3.BoolVal(cm.matched is M and not M.extra and E.at is Eat and E.len is Elen))
-        ctx.check("post.invariant(no-resource-twice-or-in-both-lists)", AP._cm_inv(N.at, N.len, M.res, M.len0))
         if wrong: ctx.check("wrong.first-available-resource-unchanged", z3.Implies(A0len > 0, N.at(0) == A0at(0)) if prepend else z3.Implies(N.len > 0, N.at(N.len - 1) == A0at(A0len - 1)))
-    paths, obl = explore(run)
-    return paths, obl, stats
+    def run_inv(ctx):
+        cm, M, E, A0at, A0len, Eat, Elen = mk(ctx, True); stats["returned"] += 1
+        N = cm.available
+        ctx.check("post.invariant(no-resource-twice-or-in-both-lists)", AP._cm_inv(N.at, N.len, M.res, M.len0))
+    p1, o1 = _explore(run_shape); p2, o2 = _explore(run_inv)
+    return p1 + p2, o1 + o2, stats
 
 def c_add_extension(prepend):
     return _wrap(f"ConstraintManager.add_extension[prepend={prepend}]", lambda w: _run_add_extension(w, prepend), ["litex.build.generic_platform.ConstraintManager.add_extension"],
-                 "arbitrary manager state satisfying the invariant; unbounded symbolic extension list of new, pairwise different resources", extra_cover=lambda s: s["returned"] >= 1)
+                 "any available/matched/io lists (shape clauses); a state satisfying the invariant and an unbounded extension list of new, pairwise different resources (invariant clause)", extra_cover=lambda s: s["returned"] >= 2)
 
 class _NamedVC(GVC):
     """GVC whose loop obligations carry a prefix (two rewritten functions with a loop 0 each take part in one case)"""
@@ -948,6 +1028,7 @@ GVC.len = _gvc_len
 
 def _run_request_loop(wrong, which="request_all", shape="pins"):
     """request_all(name) / request_remaining(name): the real function with its `while True` loop cut; the real request() and _lookup() (loop cut) run inside"""
+    _init()
     AP._init_z3()
     stats = dict(returned=0, raised=0)
     tail = AP._tails()[shape]; numbered = which == "request_all"
@@ -1030,7 +1111,7 @@ def _run_request_loop(wrong, which="request_all", shape="pins"):
         ctx.check("post.stops-only-when-" + ("(name,len(r))-is-not-available" if numbered else "no-resource-of-that-name-is-available"), z3.ForAll([a], z3.Implies(z3.And(0 <= a, a < A.len), z3.Not(match(A.at(a), jl)))))
         # vacuity guard: the path condition admits the scenario `one available resource, it matches, nothing matched before`
         if wrong: ctx.check("wrong.not(one-available-resource,nothing-matched-before,one-granted)", z3.Not(z3.And(A0len == 1, M0len == 0, jl == 1, W(0) == 0, A.len == 0)))
-    paths, obl = explore(run, max_paths=4000)
+    paths, obl = _explore(run, max_paths=4000)
     return paths, obl, stats
 
 def c_request_loop(which, shape):
@@ -1042,6 +1123,7 @@ def c_request_loop(which, shape):
 # SoCBusHandler.add_slave / add_master: names (the bus adapters / remappers they build are hardware and are stubbed)
 # =====================================================================================================================================
 def _run_add_slave(wrong, with_region=True):
+    _init()
     stats = dict(accepted=0, raised=0)
     def run(ctx):
         bus, seq, regs, ios, ioregs = _bus_state(ctx, inv_regs=True)
@@ -1067,13 +1149,14 @@ def _run_add_slave(wrong, with_region=True):
         else:
             ctx.check("post.without-a-region-argument-a-region-of-that-name-exists;regions-unchanged", z3.And(in_regs, z3.BoolVal(not regs.extra and not ioregs.extra)))
         if wrong: ctx.check("wrong.no-slave-before", sl.len == 0)
-    paths, obl = explore(run, max_paths=4000)
+    paths, obl = _explore(run, max_paths=4000)
     return paths, obl, stats
 def c_add_slave(with_region):
     return _wrap(f"add_slave[{'region' if with_region else 'region=None'}]", lambda w: _run_add_slave(w, with_region), ["litex.soc.integration.soc.SoCBusHandler.add_slave", "litex.soc.integration.soc.SoCBusHandler.add_region"],
                  "arbitrary handler state (unbounded regions / io_regions / slaves, symbolic names); add_adapter stubbed", extra_cover=lambda s: s["accepted"] >= 1 and s["raised"] >= 2)
 
 def _run_add_master(wrong):
+    _init()
     stats = dict(accepted=0, raised=0)
     def run(ctx):
         bus, seq, regs, ios, ioregs = _bus_state(ctx)
@@ -1090,7 +1173,7 @@ def _run_add_master(wrong):
         stats["accepted"] += 1
         ctx.check("post.name-was-not-a-master-before;master-recorded(adapted-m2s)", z3.And(z3.Not(was), z3.BoolVal(len(masters.extra) == 1 and masters.extra[0][0] is name and masters.extra[0][1] == ("adapted", master, "m2s"))))
         if wrong: ctx.check("wrong.no-master-before", ms.len == 0)
-    paths, obl = explore(run)
+    paths, obl = _explore(run)
     return paths, obl, stats
 def c_add_master():
     return _wrap("add_master", _run_add_master, ["litex.soc.integration.soc.SoCBusHandler.add_master"], "arbitrary masters dict (unbounded, symbolic names); add_adapter / add_remapper stubbed", extra_cover=lambda s: s["accepted"] >= 1 and s["raised"] >= 1)
@@ -1111,7 +1194,9 @@ def _finalize_scenarios():
         def __init__(self): self.r = CSRStorage(8, name="r")
     def base(**kw):
         soc = SoCCore(P(), 100e6, cpu_type=None, integrated_rom_size=0, integrated_sram_size=0x100, with_uart=False, with_timer=False, ident="", ident_version=False, **kw)
-        elab.restore_stderr(); return soc
+        elab.restore_stderr()
+        soc.bus.add_master("tb", wishbone.Interface(data_width=32, address_width=32, addressing="word"))      # without a master no interconnect (and no decoder) is built at all
+        return soc
     def good(soc): soc.add_ram("ram2", origin=0x2000_0000, size=0x1800); soc.p0 = Per()
     def unaligned(soc): soc.add_ram("ram2", origin=0x2000_0800, size=0x1000)                       # accepted by add_region; decoder() must reject it
     def on_csr(soc): soc.add_ram("ram2", origin=soc.mem_map["csr"], size=0x1000)                   # the CSR bridge region is only requested by finalize
@@ -1163,7 +1248,6 @@ def c_finalize_bounded():
                 elab.restore_stderr(); ok = must_reject; info = "rejected before finalize"
             out.append(res(f"SoC.finalize[{std},{label}]:" + ("rejected-with-SoCError" if must_reject else "builds;regions-disjoint,aligned,in-range;CSR-pages-unique,in-range"), "bounded", BOUNDED_OK if ok else VIOLATED, 0,
                            "execution of the real SoCCore(cpu_type=None)/SoC.finalize on one concrete design", info=info))
-    logging.disable(logging.NOTSET)
     return dict(results=out, functions=["litex.soc.integration.soc.SoC.finalize (bounded: 8 concrete designs x 2 bus standards)", "litex.soc.integration.soc.SoCBusHandler.do_finalize (bounded)", "litex.soc.integration.soc.SoC.add_csr_bridge (bounded)"],
                 samples=[dict(bounded="SoC.finalize", evaluations=n)])
 
@@ -1173,7 +1257,7 @@ def cases(tier):
     for cn in ("SoCLocHandler", "SoCCSRHandler", "SoCIRQHandler"):
         cs += [Case(f"{cn}.add(proof,n,symbolic-n_locs)", c_loc_add, cn, True), Case(f"{cn}.add(proof,alloc,symbolic-n_locs)", c_loc_add, cn, False)]
     cs += [Case(f"SoCCSRHandler.__init__(proof,all-configurations,{o})", c_csr_init, o) for o in ("big", "little", "middle")]
-    geoms = [(14, 0x800), (14, 0x4000), (18, 0x400)] if tier == "quick" else [(14, 0x800)] + [(aw, pg) for aw in CSR_AW for pg in CSR_PG if (aw, pg) != (14, 0x800)]
+    geoms = [(aw, pg) for aw in CSR_AW for pg in CSR_PG]          # every legal (address_width, paging) pair: 25 cases of ~5 s CPU each
     cs += [Case(f"SoCCSRHandler.__init__(proof,reserved_csrs,aw{aw},paging0x{pg:x})", c_csr_reserved, aw, pg) for aw, pg in geoms]
     cs += [Case("SoCIRQHandler.__init__(proof)", c_irq_init), Case("SoCCSRHandler.address_map(proof,memory=None)", c_address_map, False), Case("SoCCSRHandler.address_map(proof,memory)", c_address_map, True),
            Case("SoCCSRHandler.add_region(proof)", c_csr_add_region)]
@@ -1185,4 +1269,32 @@ def cases(tier):
     cs += [Case("SoC.finalize(bounded)", c_finalize_bounded)]
     return cs
 
-ASSUMPTIONS = []
+ASSUMPTIONS = [
+    "C13 handlers (E3): Python ints are mathematical integers; dict iteration is insertion order and a dict holds each key once; logging/colorer/str.format have no effect on results; no aliasing between the symbolic records handed in; "
+    "an exception the function is not declared to raise (anything but SoCError / ConstraintError / ValueError where stated) is reported as a failed obligation `no-undeclared-exception`",
+    "names are strings modelled by their identity and compared by equality only; the key set of a symbolic dict is a z3 set of identities; string concatenation is uninterpreted (name + '_' and a + b are functions of the identities, "
+    "neither injective nor disjoint from plain names - real str concatenation is neither)",
+    "bus regions handed to add_region / add_slave: origin >= 0 and size >= 1 are ints and size_pow2 >= size (constructor postcondition, case SoCRegion.__init__(proof) of C13_alloc_proofs); cached / linker / io_regions_check are arbitrary booleans; "
+    "the fixed-origin case starts from any handler state whose non-linker windows in `regions` are pairwise disjoint, the SoCIORegion case from any state whose non-linker windows in `io_regions` are pairwise disjoint; nothing is assumed about which names are in use; "
+    "after a SoCError the handler state is NOT claimed unchanged (add_region stores the region before it checks the overlap; SoCError is fatal for the build); linker regions are exempt from the overlap test by design",
+    "the IO/cached rule of add_region is stated as the code implements it on the declared extent [origin, origin+size): with io_regions_check an accepted uncached region lies inside one IO region and an accepted region lying inside an IO region is uncached; "
+    "a CACHED region that only partially overlaps an IO region is accepted, and the decoded power-of-two window of an uncached region may reach beyond the IO region (observations, the property text only constrains automatically allocated regions)",
+    "location handlers (SoCLocHandler / SoCCSRHandler / SoCIRQHandler .add, .alloc, address_map): handler state = ANY name->number map satisfying the class invariant (injective, numbers in [0, n_locs)), given as z3 arrays with a ghost inverse (used / owner) that the invariant ties to the map; "
+    "n_locs is ANY int (symbolic); the requested number is an int or None; use_loc_if_exists / enabled are arbitrary booleans; the values of `locs` are ints (part of the invariant); termination of alloc is not proved (partial correctness)",
+    "SoCCSRHandler.__init__: data_width, address_width, alignment, paging are ANY ints with address_width >= 0 and paging != 0 (a negative width makes 2**x a float and paging 0 raises ZeroDivisionError before any check: outside the contract); ordering is one of the three strings tried ('big', 'little', 'middle'); "
+    "2**k is the uninterpreted pow2 of C13_alloc_proofs with the instances k = 0..19 of its definition; the CSR space is the 2**(address_width+2)-byte bus region SoC.add_csr_bridge requests; "
+    "the loop over reserved_csrs is proved for an UNBOUNDED symbolic dict (entries: any name, int or None) at every legal (address_width, paging) pair (25 cases; data_width 32, ordering 'big': neither is read by the loop)",
+    "SoCIRQHandler.__init__: n_irqs is ANY int, reserved_irqs an unbounded symbolic dict; observation: the constructor leaves the handler disabled, so ANY reserved entry raises SoCError (over-rejection, not a violation of the property)",
+    "address_map: the client of a call is (module name, memory or None); ghost record `handed` of the keys already served, with the ghost invariant instantiated at the key the call touches",
+    "add_slave / add_master: add_adapter / add_remapper (hardware construction) are stubbed; the name is given (the automatic names 'slave<n>' / 'master<n>' are not modelled); add_slave runs with io_regions_check = False (the IO rule is covered by the add_region case)",
+    "ConstraintManager (get_sig_constraints / get_io_signals / add_extension / request_all / request_remaining): resource model of C13_alloc_proofs (a resource tuple is its identity, name/number are functions of it, tuple == is identity, the constraint tail is concrete: shapes pins / record / info); the object stored with a matched resource is a proxy "
+    "(for a Record: whether it still has sub-signal s is an arbitrary boolean per entry); pin identifiers are concrete and no connector is declared (resolve_identifiers runs on plain pin names); sub-signal names of a shape are pairwise different; "
+    "identifiers (name, number, sub-signal) of the constraint list are pairwise different IF the platform description has no two resources with the same (name, number) (stated as hypothesis of that clause); "
+    "add_extension's invariant clause assumes an extension of new, pairwise different resources (tools/replay_add_extension_twice.py shows what happens otherwise: observation); in request_all / request_remaining migen's Cat is stubbed, str(number) is a legal identifier suffix, "
+    "the real request() runs inside the cut loop with _lookup's loop cut; termination is not proved",
+    "SoC.finalize is covered by a BOUNDED stand-in only (8 concrete SoCCore(cpu_type=None) designs with one wishbone master x 2 bus standards): what finalize re-checks is (1) the CSR bridge region through add_slave/add_region (name 'csr' free, IO rule, no overlap), "
+    "(2) do_finalize: at most one region when a decoder is disabled, and SoCRegion.decoder's alignment test for every region that has a slave - only when the bus has at least one master and one slave, "
+    "(3) CSRBankArray -> address_map -> SoCLocHandler.add for every bank and CSR memory (page range / free page), (4) the CPU reset address lies in some region when cpu.reset_address_check; "
+    "NOT re-checked: regions without a slave (alignment), linker regions (overlap), fixed-origin regions against the address space, names given to SoCCSRHandler.add_region, IRQ numbers",
+    "path-feasibility queries use short solver time limits (0.4-2 s); `unknown` keeps the path, so a limit can only add paths, never drop one; every obligation is decided by Ctx.check (20 s limit, unknown is reported as undecided)",
+]
